@@ -256,6 +256,9 @@ package mongokit
 //@   ensures [ghostdef] failTaints(c)
 //@   ensures [C02] imp(err == nil, result0 != nil)
 //@   ensures [C15,C07 name=coherent] imp(err == nil, coherent(c))
+//@   ensures [C08,C01 name=changes-counted] imp(err == nil, len(result0.Changes) == len(result0.Modified))
+//@   ensures [C08,C01 name=changes-paired] imp(err == nil && len(result0.Matched) > 0,
+//@     forall(k, 0, len(result0.Modified), any(i, Int, 0 <= i && i < len(newList) && result0.Modified[k] == newList[i] && result0.Changes[k] == changes[i])))
 //@   loop 0 invariant forall(k, 0, len(list), alloc(list[k]) < alloc(newList.base)) && forall(k, 0, len(newList), alloc(newList[k]) > alloc(newList.base))
 //@   loop 1 invariant forall(k, 0, len(list), alloc(list[k]) < alloc(newList.base)) && forall(k, 0, len(newList), alloc(newList[k]) > alloc(newList.base))
 //@   loop 3 invariant forall(k, 0, len(list), alloc(list[k]) < alloc(newList.base)) && forall(k, 0, len(newList), alloc(newList[k]) > alloc(newList.base))
@@ -271,6 +274,10 @@ package mongokit
 //@   loop 5 invariant all(d, Ref, has(c.Documents.Index, d) == ((old(has(c.Documents.Index, d)) && !inList(list, rangeindex + 1, d)) || inList(newList, rangeindex + 1, d)))
 //@   loop 5 invariant all(n, Str, imp(has(c.Indexes, n), wfIndex(c.Indexes[n]) && all(d, Ref, ghost.cov[c.Indexes[n]][d] == ((old(has(c.Documents.Index, d)) && !inList(list, len(list), d)) || inList(newList, len(newList), d)))))
 //@   loop 6 invariant coherent(c) && (cap(modified) == 0 || fresh(modified)) && (cap(filteredChanges) == 0 || fresh(filteredChanges)) && len(changes) == len(newList) && len(newList) == len(list)
+//@   loop 6 invariant fresh(newList) && fresh(changes) && (cap(modified) == 0 || (modified.base != newList.base && modified.base != changes.base)) && (cap(filteredChanges) == 0 || (filteredChanges.base != newList.base && filteredChanges.base != changes.base && filteredChanges.base != modified.base))
+//@   loop 6 invariant forall(k, 0, len(newList), newList[k] == before(newList[k])) && forall(k, 0, len(changes), changes[k] == before(changes[k]))
+//@   loop 6 invariant len(filteredChanges) == len(modified)
+//@   loop 6 invariant forall(k, 0, len(modified), any(i, Int, 0 <= i && i <= rangeindex && modified[k] == newList[i] && filteredChanges[k] == changes[i]))
 // Upsert: the document built from the query (and the replacement or update) is
 // inserted like any other.
 //@ func Extract
